@@ -357,11 +357,12 @@ def dpss(N, NW=None, k=None):
                 tapsum[i] *= -1
                 tapers[:, i] *= -1
         else:
-            # sign of the first lobe: the very first sample can be below the
-            # accuracy of the tapers (~1e-10 for large NW), so look at the
-            # first sample that is significant
+            # sign of the first lobe: the first samples can be far below the
+            # accuracy of the tapers (true value ~1e-10, error up to ~1e-6 of
+            # the maximum for large N and NW), so look at the first sample that
+            # is clearly inside the lobe
             col = tapers[:, i]
-            first = col[np.argmax(np.abs(col) > 1e-6 * np.abs(col).max())]
+            first = col[np.argmax(np.abs(col) > 1e-2 * np.abs(col).max())]
             if first < 0:
                 tapsum[i] *= -1
                 tapers[:, i] *= -1
